@@ -106,12 +106,17 @@ func harnessC10MemReadChain() {
 	rest, _, err := st.Read(ctx, from, 0)
 	vAssert(err == nil && len(rest) == n-pos, "tail-complete")
 	i := 0
+	var kept []*StoredEvent // a consumer may hold on to what the stream handed it
 	for ev, serr := range st.ReadStream(ctx, from) {
 		vAssert(serr == nil, "stream-ok")
 		vAssert(i < len(rest) && ev == rest[i], "stream-same-sequence")
+		kept = append(kept, ev)
 		i++
 	}
 	vAssert(i == len(rest), "stream-same-length")
+	for j, ev := range kept {
+		vAssert(ev == rest[j] && ev.Offset == rest[j].Offset, "streamed-events-stay-what-they-were")
+	}
 	vCover("chain-done")
 }
 
